@@ -229,6 +229,19 @@ eval(struct expr *expr)
 			expr->kind = EXPRCONST;
 			expr->u.constant.u = istrue(l);
 			break;
+		case TDIV:
+		case TMOD:
+			if (l->kind != EXPRCONST || r->kind != EXPRCONST)
+				break;
+			if (l->type->prop & PROPINT) {
+				/* not a constant expression; also avoid trapping in the compiler */
+				if (r->u.constant.u == 0)
+					break;
+				if (l->type->u.basic.issigned && l->u.constant.u == 1ull << 63 && r->u.constant.i == -1)
+					break;
+			}
+			binary(expr, expr->op, l, r);
+			break;
 		default:
 			if (l->kind != EXPRCONST || r->kind != EXPRCONST)
 				break;
